@@ -1,5 +1,5 @@
 // unit float_sqrt: float/src/root.rs `Context::sqrt` (C03 for sqrt: one correct rounding of the real square root to p
-// digits, outside the known double-rounding region): scaling of the radicand by the digit / exponent parities, integer
+// digits): scaling of the radicand by the digit / exponent parities (2p-1 or 2p digits, even exponent), integer
 // `sqrt_rem` (stub), first-stage rounding by the remainder test through the contract of `Round::round_low_part`, final
 // `repr_round` (SIG, proved in unit float_repr_round) shown to be exact.
 #![allow(unused_imports, unused_variables, dead_code, non_snake_case, unused_mut, unused_parens, unused_braces)]
